@@ -94,7 +94,7 @@ def child_imports(items: List[Dict[str, Any]]) -> List[Dict[str, Any]]:
 def run_imports(ctx: Ctx, st: Optional[LeanStatus], res: Result) -> None:
     rng = ctx.sub_rng("imports")
     items = []
-    for _ in range(ctx.budget(400, 4000)):
+    for _ in range(ctx.budget(1000, 10000)):
         t = rand_name(rng)
         items.append({"op": "imports", "type": t if t is not None else "int", "serialize": rand_name(rng), "parse": rand_name(rng),
                       "import": rng.choice([None, None, "", ".custom_scalars", "pkg.mod"])})
@@ -330,10 +330,10 @@ def rand_nann(rng: random.Random, depth: int = 0) -> Dict[str, Any]:
 def run_pydantic(ctx: Ctx, st: Optional[LeanStatus], res: Result) -> None:
     rng = ctx.sub_rng("pydantic")
     items = []
-    for _ in range(ctx.budget(600, 6000)):
+    for _ in range(ctx.budget(3000, 30000)):
         ann = rand_rann(rng)
         items.append({"op": "validate", "ann": ann, "j": wire.enc(rand_value_for(rng, ann, corrupt=rng.choice([0.0, 0.0, 0.1])))})
-    for _ in range(ctx.budget(400, 4000)):
+    for _ in range(ctx.budget(2000, 20000)):
         ann = rand_nann(rng)
         items.append({"op": "dump", "ann": ann, "v": rand_dump_value(rng, ann)})
     chunks = [items[i:i + 400] for i in range(0, len(items), 400)]
@@ -731,7 +731,7 @@ def run(ctx: Ctx, st: Optional[LeanStatus]) -> Result:
     run_imports(ctx, st, res)
     run_pydantic(ctx, st, res)
     ctx.log(f"imports + pydantic correspondence done ({res.evaluations} evaluations, {len(res.mismatches)} mismatches)")
-    run_e2e(ctx, st, res, e2e_cases(ctx, ctx.budget(40, 400), "e2e"))
+    run_e2e(ctx, st, res, e2e_cases(ctx, ctx.budget(120, 1000), "e2e"))
     ctx.log(f"end-to-end done ({res.evaluations} evaluations, {len(res.mismatches)} mismatches, {len(res.failures)} oracle failures)")
     res.oracle_only += [
         "import of the generated modules (autoflake removing unused scalar imports, isort, black): observed on real packages",
